@@ -183,6 +183,7 @@ def execOp (line : String) : String :=
           else if kindOfName kind = none then bad
           else withPkt fun p => okHex p.enc
     | "encspec" => withPkt fun p => okHex (Spec.encOrWireAll p)
+    | "enccap" => if kindOfName kind = none then bad else withPkt fun p => okHex p.enc
     | "size" => withPkt fun p => s!"ok {p.marshalSize}"
     | "hdr" => withPkt fun p => match p.header? with
         | some h => "ok " ++ join (wHeader h)
